@@ -279,7 +279,7 @@ impl TypedProp for C13 {
     fn info(&self) -> PropInfo {
         PropInfo {
             level: "exploration",
-            rule: "pure part (exhaustive per table): for each override table (2 hand-written + tables drawn by the seed over 4 non-modifier keys and all subsets of the 8 modifiers) every ordered list of up to 4 distinct keys of the 12-key universe is given to the real Overrides::override_keys (table compiled by the real parser) and the resulting key set compared with the reference (most modifiers wins, modifiers and key replaced by the outputs, other keys untouched). Where a modifier is listed after the key the statement does not say whether it counts: both readings are accepted there. Pipeline part: random press/release histories over the 12 keys through the whole state machine, override-release-on-activation on/off: at every quiescent point the OS key set equals the reference applied to the keys the layout holds; nothing is down at the end. Non-trivial: >= 2 overrides share the non-modifier key of the list / history, or a modifier outside every matching combination is held. Distinct: hash of (table, list | history).",
+            rule: "pure part (exhaustive per table): for each override table (2 hand-written + tables drawn by the seed over 4 non-modifier keys and all subsets of the 8 modifiers) every ordered list of up to 4 distinct keys of the 12-key universe is given to the real Overrides::override_keys (table compiled by the real parser) and the resulting key set compared with the reference (most modifiers wins, modifiers and key replaced by the outputs, other keys untouched). Where a modifier is listed after the key the statement does not say whether it counts: both readings are accepted there. Pipeline part: random press/release histories over the 12 keys through the whole state machine, override-release-on-activation on/off: at every quiescent point the OS key set equals the reference applied to the keys the layout holds; at every millisecond a key that goes down at the OS without having been physically down in the 8 ms before is the output of an override whose whole input combination was physically down in that window; nothing is down at the end. Non-trivial: >= 2 overrides share the non-modifier key of the list / history, or a modifier outside every matching combination is held. Distinct: hash of (table, list | history).",
             assumptions: vec!["ties between overrides with equally many modifiers are not decided by the statement: any of them is accepted".into()],
             extra: BTreeMap::new(),
         }
@@ -445,14 +445,18 @@ impl TypedProp for C13 {
                         });
                     }
                 };
+                // (tick, keys physically down from then on)
+                let mut phys_log: Vec<(u64, BTreeSet<u16>)> = vec![(0, BTreeSet::new())];
                 for (i, ev) in case.hist.iter().enumerate() {
                     match ev {
                         Ev::Press(k) => {
                             phys.insert(*k);
+                            phys_log.push((sim.ticks, phys.clone()));
                             sim.press(*k)
                         }
                         Ev::Release(k) => {
                             phys.remove(k);
+                            phys_log.push((sim.ticks, phys.clone()));
                             sim.release(*k)
                         }
                         Ev::Gap(g) => {
@@ -496,6 +500,36 @@ impl TypedProp for C13 {
                         }
                     }
                 }
+                // transient invariant (every millisecond, not only quiescent points): a key that goes down at
+                // the OS without having been physically down in the last 8 ms is an override's output, and that
+                // override's whole input combination was physically down in that window
+                let mut transient_fail: Option<Fail> = None;
+                for o in &sim.outs {
+                    if let crate::sim::OutEv::Down(k) = o.ev {
+                        let lo = o.t.saturating_sub(8);
+                        let mut recent: BTreeSet<u16> = BTreeSet::new();
+                        for (n, (t0, set)) in phys_log.iter().enumerate() {
+                            let t1 = phys_log.get(n + 1).map(|x| x.0).unwrap_or(u64::MAX);
+                            if *t0 <= o.t && t1 >= lo {
+                                recent.extend(set.iter().copied());
+                            }
+                        }
+                        if recent.contains(&k) {
+                            continue;
+                        }
+                        let explained = case.table.iter().any(|e| {
+                            let outs: Vec<u16> = (0..8).filter(|b| e.out_mods & (1 << b) != 0).map(|b| code_of(MODS[b])).chain([code_of(OUTS[e.out_key % OUTS.len()])]).collect();
+                            let ins: Vec<u16> = (0..8).filter(|b| e.in_mods & (1 << b) != 0).map(|b| code_of(MODS[b])).chain([code_of(INS[e.in_key % INS.len()])]).collect();
+                            outs.contains(&k) && ins.iter().all(|c| recent.contains(c))
+                        });
+                        if !explained && transient_fail.is_none() {
+                            transient_fail = Some(Fail {
+                                sig: "mismatch:override-output-without-its-combination".into(),
+                                detail: format!("{text}{} goes down at tick {} although neither it nor the input combination of an override that outputs it was physically down in the 8 ms before (physically down then: {:?})\noutput: {}", out_name(k), o.t, recent.iter().map(|c| out_name(*c)).collect::<Vec<_>>(), crate::sim::fmt_outs(&sim.outs)),
+                            });
+                        }
+                    }
+                }
                 sim.tick_n(30);
                 for o in &sim.outs[applied..] {
                     os.apply(o);
@@ -504,6 +538,8 @@ impl TypedProp for C13 {
                 if let Some(f) = fail {
                     v.fail = Some(f);
                 } else if let Some(f) = phys_fail {
+                    v.fail = Some(f);
+                } else if let Some(f) = transient_fail {
                     v.fail = Some(f);
                 } else if os.anything_down() {
                     v = Verdict::failed(
